@@ -505,12 +505,12 @@ Section VisitorsSafe.
     rewrite q_leaf_parent_on. simpl. destruct (is_composite_name S pn) eqn:Ec; simpl; [| split; reflexivity].
     destruct (named_type S F (fst tc)) as [b|] eqn:En; [| split; reflexivity].
     destruct (is_composite_body b) eqn:Eb; [| split; reflexivity].
-    assert (possible_types S (fst tc) <> None) as H1.
+    assert (possible_types q S F (fst tc) <> None) as H1.
     { unfold named_type in En. unfold possible_types, raw_body. destruct (raw_type S (fst tc)) as [d|]; [| discriminate].
       destruct (subset (t_req d) F); [| discriminate]. inversion En; subst b. destruct (t_body d); try discriminate; discriminate. }
-    assert (possible_types S pn <> None) as H2.
+    assert (possible_types q S F pn <> None) as H2.
     { unfold is_composite_name in Ec. unfold possible_types. destruct (raw_body S pn) as [[| | | | |]|]; try discriminate; discriminate. }
-    destruct (possible_types S (fst tc)); [| contradiction]. destruct (possible_types S pn); [| contradiction].
+    destruct (possible_types q S F (fst tc)); [| contradiction]. destruct (possible_types q S F pn); [| contradiction].
     destruct (existsb _ _); split; reflexivity.
   Qed.
 
